@@ -193,7 +193,9 @@ class X(object):
         CV = smt.fresh_fun("curve_" + key[0], Cell, z3.RealSort())
 
         def seg(k, xx):
-            return (xx - P(k - 1)) * (Q(k) - Q(k - 1)) / (P(k) - P(k - 1)) + Q(k - 1)
+            # slope form of lin(x; P(k-1) -> Q(k-1), P(k) -> Q(k))
+            slope = (Q(k) - Q(k - 1)) / (P(k) - P(k - 1))
+            return slope * xx + (Q(k - 1) - slope * P(k - 1))
 
         def defn(c):
             xx = xv(c)
@@ -231,7 +233,7 @@ def build_inputs(eng, ci, fuzzy_pre=True):
 
     srt_provider.wants_state = True
     st.lazy.append(srt_provider)
-    for a in ("_distinct", "_numsum", "_sorted"):
+    for a in ("_distinct", "_numsum", "_sorted", "_distinct_seqs", "_numsum_seqs"):
         eng.__dict__[a] = {}
 
     def sorted_provider(s):
